@@ -29,7 +29,8 @@ def outcome_variants(rng, n, edges, k, big_p=0.25, missing_p=0.2):
                 b['err'] = rng.choice(BIG)
             behav.append(b)
         missing = [i for i in range(n) if inputs[i] and rng.random() < missing_p]
-        out.append(sc.mk_case(sc.mk_spec(n, edges, kinds, whens, inputs), rng.choice([1, 2, 4]), behav,
+        unspawnable = [i for i in range(n) if rng.random() < 0.08]
+        out.append(sc.mk_case(sc.mk_spec(n, edges, kinds, whens, inputs, unspawnable=unspawnable), rng.choice([1, 2, 4]), behav,
                               runs=2 if rng.random() < 0.2 else 1, missing=missing, label='outcomes'))
     return out
 
@@ -55,6 +56,17 @@ def gen_cases(chk, quick):
     spec = sc.mk_spec(4, [(2, 0), (2, 1), (3, 2)], inputs=[True, True, False, False])
     cases.append(sc.mk_case(spec, 1, missing=[0], label='missing-dep'))
     cases.append(sc.mk_case(spec, 1, missing=[0, 1], label='missing-dep'))
+    # a command that cannot be spawned (exec error after the process slot was reserved), with dependents, in joins, and
+    # competing for a small pool with steps waiting behind a gate
+    for w in sc.WHENS:
+        for wbad in ('by_dependencies', 'always'):
+            spec = sc.mk_spec(3, [(1, 0), (2, 1)], whens=[wbad, w, 'by_dependencies'], unspawnable=[0])
+            cases.append(sc.mk_case(spec, 1, label='unspawnable'))
+    for pool in (1, 2):
+        spec = sc.mk_spec(4, [(3, 0), (3, 1), (3, 2)], unspawnable=[1])
+        cases.append(sc.mk_case(spec, pool, [{'sleep_ms': 40}, {}, {'rc': 0}, {}], label='unspawnable'))
+        spec = sc.mk_spec(7, [(w, 0) for w in (2, 3, 4, 5, 6)], unspawnable=[1])
+        cases.append(sc.mk_case(spec, pool, [{'sleep_ms': 80}, {}] + [{'sleep_ms': 60} for _ in range(5)], label='unspawnable'))
     # large output on either stream (K4a shape): below and above the pipe capacity, with and without a dependent, failing or not
     for out_b in BIG:
         for err_b in BIG:
@@ -90,6 +102,7 @@ def run(chk):
     chk.extra['rule'] = (
         'a step with 2 and with 3 dependencies under EVERY assignment of success/failure to them, x when of the waiting step x edge kind; '
         'a step whose file dependency does not exist with a chain of dependents (x edge kinds x when), and joins with one or two such steps; '
+        'a step whose command cannot be SPAWNED (NUL byte in an exported line_items variable: exec EINVAL) with dependents x when, in a join, and with five steps waiting behind a gate at pools 1 and 2 (also 8 % of the steps of the random families); '
         'a command writing {0,1000,70000,300000} bytes to stdout x the same to stderr (pipe capacity 65536), succeeding or failing, with a dependent; ' +
         ('60 of the 543 DAGs on 4 steps + all DAGs on 2..3 steps' if quick else 'ALL 543 DAGs on 4 steps x 4 + all DAGs on <= 3 steps x 10 + 150 random DAGs on 5..8 steps') +
         ' with random outcomes (35 % failing commands, 20 % of the private input files missing, 25 % large outputs), when-options, pools 1/2/4, one or two runs. '
